@@ -463,8 +463,22 @@ mod c10 {
     #[kani::unwind(9)]
     #[kani::stub(embassy_time::Instant::now, fake_now)]
     fn c10_session_post_recv() {
+        session_post_recv_step(MAX_EXCHANGES);
+    }
+
+    /// The same step contract on sessions whose exchange table holds at most 2 entries (the quick-tier twin).
+    // TIER: quick!  (quick-tier twin of a thorough harness; measured 260-320 s on a loaded machine)
+    // KIND: bounded (exchange table of <= 2 of 5 entries; everything else as in c10_session_post_recv)
+    #[kani::proof]
+    #[kani::unwind(9)]
+    #[kani::stub(embassy_time::Instant::now, fake_now)]
+    fn c10_session_post_recv_2() {
+        session_post_recv_step(2);
+    }
+
+    fn session_post_recv_step(nmax: usize) {
         let n: usize = kani::any();
-        kani::assume(n <= MAX_EXCHANGES);
+        kani::assume(n <= nmax);
         let slots: [SlotParams; MAX_EXCHANGES] = kani::any();
         let mode = any_mode();
         let mode0 = mode.clone();
@@ -3739,6 +3753,59 @@ mod c20 {
     #[kani::stub(embassy_time::Instant::now, fake_now)]
     fn c20_eviction_3() {
         check_eviction::<3>();
+    }
+
+    // ------------------------------------------------------------------------------------------------
+    // Sessions::get_for_node: outbound traffic addressed by (fabric, node) - subscription reports,
+    // client exchanges - never picks an expired session (the state of a session whose fabric was
+    // removed and that only lives on to carry the response in flight)
+    // ------------------------------------------------------------------------------------------------
+
+    // TIER: quick!  (quick-tier twin of a thorough harness; measured 260-320 s on a loaded machine)
+    // KIND: bounded (table of exactly 2 of MAX_SESSIONS=32 sessions)
+    #[kani::proof]
+    #[kani::unwind(7)]
+    #[kani::stub(embassy_time::Instant::now, fake_now)]
+    fn c07_get_for_node_2() {
+        let mut t = Sessions::new();
+        fill_sessions(&mut t, 2);
+        let (len, before) = table_sig::<2>(&t);
+        let fab = NonZeroU8::new(kani::any());
+        kani::assume(fab.is_some());
+        let fab = fab.unwrap();
+        let node: u64 = kani::any();
+        // eligible = a live (not expired) operational session of that fabric to that node (`is_for_node`: C03 contract)
+        let elig: [bool; 2] = [t.sessions[0].is_for_node(fab, node) && !before[0].expired, t.sessions[1].is_for_node(fab, node) && !before[1].expired];
+
+        let p = t.get_for_node(fab, node).map(|s| s as *const Session);
+        let mut picked: Option<usize> = None;
+        for k in 0..2 {
+            if p == Some(&t.sessions[k] as *const Session) {
+                picked = Some(k);
+            }
+        }
+        kani::assert(p.is_some() == picked.is_some(), "C07.get_for_node.returns_a_table_entry");
+        match picked {
+            Some(i) => {
+                kani::assert(!before[i].expired, "C07.get_for_node.never_an_expired_session");
+                kani::assert(!before[i].reserved, "C07.get_for_node.never_a_reserved_session");
+                kani::assert(before[i].peer_nodeid == Some(node) && before[i].mode.1 == fab.get(), "C07.get_for_node.session_of_that_fabric_and_node");
+                kani::assert(elig[i], "C07.get_for_node.result_is_eligible");
+            }
+            None => kani::assert(!elig[0] && !elig[1], "C07.get_for_node.none_only_without_live_session"),
+        }
+        let _ = len;
+        kani::cover!(picked.is_some(), "a live session found");
+        kani::cover!(picked.is_none() && before[0].expired && before[0].peer_nodeid == Some(node), "only an expired session to that node");
+    }
+
+    // TIER: quick!  (quick-tier twin of a thorough harness; measured 260-320 s on a loaded machine)
+    // KIND: bounded (table of exactly 2 of MAX_SESSIONS=32 sessions, each with all 5 exchange slots)
+    #[kani::proof]
+    #[kani::unwind(7)]
+    #[kani::stub(embassy_time::Instant::now, fake_now)]
+    fn c20_eviction_2() {
+        check_eviction::<2>();
     }
 
     /// D8: the statement's clause "as soon as at least one session is idle ..." without the
